@@ -186,7 +186,8 @@ func (o *objectImpl) SetProperty(name value.Value, newValue value.Value) error {
 	// the value must have the type declared for the property.
 	for _, property := range o.meta.Properties {
 		if property.Name == nameStr && property.Signature != sig &&
-			property.Signature != "("+sig+")" {
+			property.Signature != "("+sig+")" &&
+			property.Signature != "m" && property.Signature != "(m)" {
 			return fmt.Errorf("invalid type %s for property %s (%s)",
 				sig, nameStr, property.Signature)
 		}
